@@ -24,7 +24,7 @@ RULE = ('One case = 2-4 interpreters running generated charts that send events (
 ASSUMPTIONS = ['bind() is only called at step boundaries (the statement does not say whether a target bound during a delivery receives '
                'the event being delivered); detach() is also called from inside callbacks',
                'generated charts per DESIGN §2']
-REQUIRED_COUNTERS = ['threaded_schedules', 'threaded_deliveries_checked', 'sender_steps_checked', 'deliveries_checked', 'steps_with_2plus_bindings_and_2plus_sends', 'detach_inside_callback',
+REQUIRED_COUNTERS = ['bound_method_targets_without_other_reference', 'threaded_schedules', 'threaded_deliveries_checked', 'sender_steps_checked', 'deliveries_checked', 'steps_with_2plus_bindings_and_2plus_sends', 'detach_inside_callback',
                      'self_detach_inside_callback', 'detach_at_boundary', 'delayed_events_delivered', 'notify_not_forwarded',
                      'own_internal_consumptions', 'cyclic_topologies', 'same_target_bound_twice', 'sends_while_becoming_final']
 TIERS = dict(quick=dict(ticks=70, gen=dict(max_states=9, max_depth=3, max_trans=10)),
@@ -92,18 +92,40 @@ def run_case(acc, rnd, tier, case):
 
     callables = {}
 
+    class Relay:
+        """A target given as a bound method of an object nobody else refers to (sender.bind(Relay(k).forward))."""
+
+        def __init__(self, k):
+            self.k = k
+
+        def forward(self, ev):
+            dlog.append((('cb', self.k), type(ev).__name__, ev.name, dict(ev.data)))
+            run_hooks(('cb', self.k))
+            # a receiver may do what it wants with the event it got (tag it, drop its delay before re-queueing it...):
+            # every target gets its own event
+            ev.data['seen_by'] = self.k
+            ev.data.pop('delay', None)
+
     def make_cb(k):
+        if k % 2 == 1:
+            return 'relay'      # created afresh at every bind(): the binding is the only reference to the object
         def cb(ev):
             dlog.append((('cb', k), type(ev).__name__, ev.name, dict(ev.data)))
             run_hooks(('cb', k))
+            ev.data['seen_by'] = k
         return cb
-    for k in range(rnd.randint(1, 3)):
+    for k in range(rnd.randint(2, 3)):
         callables[('cb', k)] = make_cb(k)
+    import gc
+    gc.collect()
     targets = [('interp', i) for i in range(n)] + list(callables)
 
     def do_bind(snd, tid):
         if tid[0] == 'interp':
             h = snd.it.bind(nodes[tid[1]].it)
+        elif callables[tid] == 'relay':
+            h = snd.it.bind(Relay(tid[1]).forward)
+            acc.count('bound_method_targets_without_other_reference')
         else:
             h = snd.it.bind(callables[tid])
         if any(b[1] == tid for b in snd.bindings):
